@@ -907,13 +907,13 @@ def c18(tier, seed):
 # ================================================================================================
 # C19  RL environment wrappers
 # ================================================================================================
-def _rlw_histories(L, rewards):
-    cfgp = os.path.join(tlc.SPECS, f"RlWrappers_{L}.cfg")
+def _rlw_histories(L, rewards, episodes=(0,), emit=True):
+    cfgp = os.path.join(tlc.SPECS, f"RlWrappers_{L}_{len(episodes)}.cfg")
     with open(cfgp, "w") as f:
-        f.write(f"SPECIFICATION Spec\nCONSTANTS\n  L = {L}\n  Rewards = {{{', '.join(str(r) for r in rewards)}}}\n"
-                "INVARIANT LogAccounting\nINVARIANT LogStableBetweenEnds\nINVARIANT AutoResetSemantics\nINVARIANT MomentsOfEverythingSeen\nINVARIANT Emit\nCHECK_DEADLOCK FALSE\n")
+        f.write(f"SPECIFICATION Spec\nCONSTANTS\n  L = {L}\n  Rewards = {{{', '.join(str(r) for r in rewards)}}}\n  Episodes = {{{', '.join(str(e) for e in episodes)}}}\n"
+                "INVARIANT ScheduleInForce\nINVARIANT LogAccounting\nINVARIANT LogStableBetweenEnds\nINVARIANT AutoResetSemantics\nINVARIANT MomentsOfEverythingSeen\n" + ("INVARIANT Emit\n" if emit else "") + "CHECK_DEADLOCK FALSE\n")
     try:
-        r = tlc.run_tlc("RlWrappers", cfg=os.path.basename(cfgp), workers=1, timeout=1800, heap="4g")
+        r = tlc.run_tlc("RlWrappers", cfg=os.path.basename(cfgp), workers=1 if emit else 8, timeout=1800, heap="4g")
     finally:
         os.remove(cfgp)
     st = r["stats"]
@@ -997,7 +997,7 @@ def rlw_replay_job(job):
     results = []
     for variant in job["variants"]:
         fixed_init, squash = variant["fixed_init"], variant["squash"]
-        env = TableEnv(G, params=None, only_init=False, starting_eps=0, randomize_eps=False, order=None)
+        env = TableEnv(G, params=None, only_init=bool(variant.get("only_init", False)), starting_eps=0, randomize_eps=False, order=None)
         env = rl.AutoResetWrapper(env, fixed_init=fixed_init)
         env = rl.LogWrapper(env)
         env = rl.SquashActionWrapper(env, squash=squash) if variant.get("wrapper", "squash") == "squash" else rl.ClipActionWrapper(env)
@@ -1098,18 +1098,22 @@ def c19(tier, seed):
     L = 3 if quick else 4
     hs, st = _rlw_histories(L, [0, 1, 3])  # reward codes: reward = code - 1
     rep.add_tlc(st)
-    rep.cov["model_runs"] = [dict(module="RlWrappers", L=L, histories=len(hs), states=st["distinct"], transitions=st["generated"])]
+    _, st3 = _rlw_histories(L, [0, 1, 3], episodes=(0, 1, 2), emit=False)   # several recorded episodes, drawn anew at every reset
+    rep.add_tlc(st3)
+    rep.cov["model_runs"] = [dict(module="RlWrappers", L=L, histories=len(hs), states=st["distinct"], transitions=st["generated"]),
+                             dict(module="RlWrappers", L=L, episodes=3, states=st3["distinct"], transitions=st3["generated"])]
     rep.cov["exhaustive"] = True
     rng = random.Random(seed)
     pick = hs if not quick else rng.sample(hs, min(len(hs), 400))
-    variants = [dict(fixed_init=True, squash=True), dict(fixed_init=False, squash=False), dict(fixed_init=True, squash=False, wrapper="clip")]
+    variants = [dict(fixed_init=True, squash=True), dict(fixed_init=False, squash=False), dict(fixed_init=True, squash=False, wrapper="clip"),
+                dict(fixed_init=False, squash=True, only_init=True)]   # only_init: the first partition is skipped, the step counter starts at 1 all the same
     jobs = []
     nchunk = 12
     for ci in range(nchunk):
         ch = pick[ci::nchunk]
         if ch:
             jobs.append(dict(kind="pyfunc", module="harness.checks.smallchecks", func="rlw_replay_job", id=f"c19r{ci}", L=L, seed=seed + ci, histories=ch,
-                             variants=[variants[ci % 3]] if quick else variants, timeout=2400))
+                             variants=[variants[ci % 4]] if quick else variants, timeout=2400))
     results = common.run_jobs(jobs)
     n = 0
     for res in results:
@@ -1128,7 +1132,7 @@ def c19(tier, seed):
     rep.cov["traces_validated_against_impl"] = n
     rep.cov["evaluations"] = n
     rep.cov["rule"] = ("RlWrappers (TLC): every reward/termination history of length L over rewards {-1,0,2} x terminated x truncated with invariants "
-                       "LogAccounting, LogStableBetweenEnds, AutoResetSemantics, MomentsOfEverythingSeen; each history is replayed on a real "
+                       "LogAccounting, LogStableBetweenEnds, AutoResetSemantics, MomentsOfEverythingSeen, ScheduleInForce (also over 3 episodes drawn anew at every reset); each history is replayed on a real "
                        "NormalizeVecReward(NormalizeVecObservation(VecEnv(Squash|Clip(Log(AutoReset(fixed|fresh)(Environment over a compiled graph)))))): after "
                        "every step the observation (= graph step), reward sign, flags, returned episode return/length, timestep, graph step, running moments "
                        "(as exact integer sums) and the supervisor output found in the graph buffer (= squashed/clipped action, inside the bounds) must equal "
